@@ -142,6 +142,8 @@ impl Property for C14 {
     }
 
     fn run(&self, t: &mut Tape, ctx: &mut Ctx) -> PResult {
+        // C14 says nothing about the tolerance of "holds": a value exactly on the threshold is left undecided
+        let _open = crate::model::BoundaryOpenGuard::new();
         let regime = Regime::Dyadic;
         let nops = 1 + t.choice(if ctx.tier == Tier::Quick { 8 } else { 20 });
         // history drawn early (ids as indices into the id universe, resolved later)
